@@ -3,6 +3,7 @@ package props
 import (
 	"context"
 	"fmt"
+	"strings"
 	"sync"
 	"testing/synctest"
 	"time"
@@ -47,6 +48,20 @@ type recContractor struct {
 	yield func(string)
 	// gate, if set, brackets DebitAccount (C18: blocking handlers)
 	gate func(method string) func()
+	// blockingLocks: a contract lock that is taken waits for its holder (a
+	// host whose lock is a mutex) instead of refusing at once
+	blockingLocks bool
+}
+
+// LockV2Contract is the reference implementation's, or - with blockingLocks -
+// one that waits up to two simulated seconds for the holder.
+func (c *recContractor) LockV2Contract(id types.FileContractID) (rhp4.RevisionState, func(), error) {
+	st, unlock, err := c.EphemeralContractor.LockV2Contract(id)
+	for i := 0; err != nil && c.blockingLocks && strings.Contains(err.Error(), "already locked") && i < 2000; i++ {
+		time.Sleep(time.Millisecond)
+		st, unlock, err = c.EphemeralContractor.LockV2Contract(id)
+	}
+	return st, unlock, err
 }
 
 func (c *recContractor) rec(call contractorCall) {
